@@ -1,6 +1,7 @@
 package main
 
 import (
+	"fmt"
 	"iter"
 	"math"
 	"math/big"
@@ -144,15 +145,27 @@ func exerciseViews(x Num, n int) {
 		fr := y.WithSignificant(k).FullReverse()
 		for _, ok := fr(); ok; _, ok = fr() {
 		}
+		_ = fmt.Sprintf("%v|%.1f", y.WithSignificant(1), y.WithSignificant(2))
 	case *v2.Number:
 		it := y.WithSignificant(k).Reverse()
 		for _, ok := it(); ok; _, ok = it() {
 		}
+		_ = fmt.Sprintf("%v|%.1f", y.WithSignificant(1), y.WithSignificant(2))
 	case v3.Number:
 		for range y.WithSignificant(k).Backward() {
 		}
 		for range y.WithStart(1).WithEnd(k).Values() {
 		}
+		// formatting a short view (fewer digits than the exponent, so that the text is padded with zeros)
+		for _, j := range []int{1, 2, 3} {
+			f := y.WithSignificant(j)
+			_ = f.Exact()
+			_ = f.String()
+			_ = fmt.Sprintf("%.2f|%v|%e", f, f, f)
+		}
+	}
+	if s, ok := x.(fmt.Stringer); ok {
+		_ = s.String()
 	}
 }
 
